@@ -46,15 +46,16 @@ class Models:
         return any(k in self.table for k in self.key_candidates(c))
 
     def call(self, ex, c, args):
+        # impure primitives first: a generic model keyed by the bare method name (`iter`, `values`, ..) must never stand in for one
+        imp = impure_primitive(c.text)
+        if imp:
+            ex.notes.setdefault('impure', []).append(f'{imp}: {c.text[:160]}')
+            raise Unsupported(f'IMPURE primitive reached ({imp}): `{c.text[:200]}`')
         for k in self.key_candidates(c):
             fn = self.table.get(k)
             if fn:
                 ex.models_used.add(k)
                 return fn(ex, c, args)
-        imp = impure_primitive(c.text)
-        if imp:
-            ex.notes.setdefault('impure', []).append(f'{imp}: {c.text[:160]}')
-            raise Unsupported(f'IMPURE primitive reached ({imp}): `{c.text[:200]}`')
         raise Unsupported(f'no body and no model for callee `{c.text}` (keys {self.key_candidates(c)})')
 
 
@@ -62,11 +63,11 @@ IMPURE_PATTERNS = [
     (r'\bstd::env::|\benv::var', 'process environment'),
     (r'\bstd::time::|\bInstant::now|\bSystemTime::', 'clock'),
     (r'\bstd::fs::|\bFile::', 'file system'),
-    (r'\bAtomic(Bool|Usize|U\d+|I\d+|Isize|Ptr)\b.*::(load|store|swap|fetch_\w+|compare_exchange\w*)', 'atomic in a static (state shared between invocations)'),
+    (r'\bAtomic(Bool|Usize|U\d+|I\d+|Isize|Ptr)?\b.*::(load|store|swap|fetch_\w+|compare_exchange\w*)\b', 'atomic in a static (state shared between invocations)'),
     (r'\bLocalKey\b|thread_local', 'thread-local state'),
     (r'\b(OnceLock|OnceCell|LazyLock|Mutex|RwLock)\b', 'lazily initialised / locked shared state'),
     (r'\bRandomState\b|\brandom\b', 'randomness'),
-    (r'\bHash(Map|Set)<.*>::(iter|iter_mut|into_iter|keys|values|values_mut|into_values|into_keys|drain)\b|hash_(map|set)::\w*(Iter|Values|Keys|Drain)', 'iteration over a hash-ordered collection'),
+    (r'\bHash(Map|Set)(::)?<.*>::(iter|iter_mut|into_iter|keys|values|values_mut|into_values|into_keys|drain)\b|hash_(map|set)::\w*(Iter|Values|Keys|Drain)', 'iteration over a hash-ordered collection'),
     (r'\bprocess::id|\bthread::current', 'process / thread identity'),
 ]
 
@@ -500,6 +501,26 @@ def _to_string(ex, c, a):
     if isinstance(v, Obj) and v.ty == 'Lifetime':
         nm = v.fields[1].name
         return ("'" + nm) if isinstance(nm, str) else z3.Concat(z3.StringVal("'"), nm)
+    if isinstance(v, TS):
+        # the Display form of a token stream: tokens separated by single spaces (what proc_macro2's fallback prints); only for
+        # streams without solver-valued spellings
+        P = synprint.Printer(resolve=lambda s_: ex.force(s_))
+        flat = P.flat(v.toks)
+
+        def text(toks):
+            out = []
+            for t in toks:
+                if t[0] == 'G':
+                    close = {'(': ')', '[': ']', '{': '}'}.get(t[1], '')
+                    out.append(t[1] + ' ' + text(t[2]) + (' ' if t[2] else '') + close)
+                elif t[0] == 'LT':
+                    out.append("'" + str(t[1]))
+                elif isinstance(t[1], str):
+                    out.append(t[1])
+                else:
+                    raise Unsupported('to_string of a token stream with solver-valued spellings')
+            return ' '.join(out)
+        return text(flat)
     raise Unsupported('to_string of ' + type(v).__name__)
 
 
@@ -1980,3 +2001,108 @@ def _string_insert(ex, c, a):
     else:
         raise Unsupported('String::insert into a symbolic string at a position other than 0')
     return UNIT
+
+
+@model('HashMap::entry', 'BTreeMap::entry')
+def _map_entry(ex, c, a):
+    return Obj('MapEntry', None, [deref(a[0]), a[1]])
+
+
+@model('Entry::or_insert', 'Entry::or_insert_with', 'Entry::or_default')
+def _entry_or_insert(ex, c, a):
+    e = a[0]
+    m, key = e.fields
+    k = sort_key(key)
+    for i, (kk, vv) in enumerate(m.fields[0]):
+        if sort_key(kk) == k:
+            cell = [vv]
+            m.fields[0][i] = (kk, vv)
+            return new_cell(vv)
+    if c.method == 'or_insert':
+        v = a[1]
+    elif c.method == 'or_insert_with':
+        v = ex.call_value(a[1], [])
+    else:
+        raise Unsupported('Entry::or_default')
+    m.fields[0].append((key, v))
+    if m.ty == 'BTree':
+        m.fields[0].sort(key=lambda kv: sort_key(kv[0]))
+    return new_cell(v)
+
+
+@model('slice::sort_by_key', 'Vec::sort_by_key', 'slice::sort_by_cached_key', 'slice::sort_unstable_by_key')
+def _sort_by_key(ex, c, a):
+    v = _items(ex, a[0]).items
+    keyed = []
+    for i in range(len(v)):
+        k = ex.call_value(a[1], [Ptr(v, i)])
+        if isinstance(k, z3.ExprRef):
+            k = ex.branch(k, 'sort key') if z3.is_bool(k) else sort_key(k)
+        keyed.append((sort_key(k) if not isinstance(k, bool) else k, i))
+    order = sorted(range(len(v)), key=lambda j: (keyed[j][0], j))   # stable
+    v[:] = [v[j] for j in order]
+    return UNIT
+
+
+@model('slice::sort_by', 'Vec::sort_by', 'slice::sort_unstable_by')
+def _sort_by(ex, c, a):
+    import functools
+    v = _items(ex, a[0]).items
+
+    def cmp(x, y):
+        o = ex.call_value(a[1], [new_cell(x), new_cell(y)])
+        return {'Less': -1, 'Equal': 0, 'Greater': 1}[o.variant]
+    v.sort(key=functools.cmp_to_key(cmp))
+    return UNIT
+
+
+@model('Iterator::min', 'Iterator::max')
+def _min_max(ex, c, a):
+    it = into_iter(ex, a[0])
+    items = []
+    while True:
+        n = iter_next(ex, it)
+        if n.variant == 'None':
+            break
+        items.append(n.fields[0])
+    if not items:
+        return NONE()
+    f = min if c.method == 'min' else max
+    return Some(f(items, key=sort_key))
+
+
+@model('Iterator::sum')
+def _sum(ex, c, a):
+    it = into_iter(ex, a[0])
+    s_ = 0
+    while True:
+        n = iter_next(ex, it)
+        if n.variant == 'None':
+            return s_
+        s_ += deref(n.fields[0])
+
+
+@model('Iterator::step_by', 'Iterator::skip_while', 'Iterator::take_while')
+def _it_misc(ex, c, a):
+    it = into_iter(ex, a[0])
+    items = []
+    while True:
+        n = iter_next(ex, it)
+        if n.variant == 'None':
+            break
+        items.append(n.fields[0])
+    if c.method == 'step_by':
+        return Iter('list', items[::a[1]], 'val')
+    out, dropping = [], True
+    for x in items:
+        t = ex.branch(ex.call_value(a[1], [new_cell(x)]), c.method)
+        if c.method == 'take_while':
+            if not t:
+                break
+            out.append(x)
+        else:
+            if dropping and t:
+                continue
+            dropping = False
+            out.append(x)
+    return Iter('list', out, 'val')
